@@ -117,9 +117,17 @@ func (l *baseLeaf) URLPath(vals map[string]string, withOptional bool) string {
 				continue
 			}
 
-			buf.WriteString("{")
-			buf.WriteString(e.BindParameters.Parameters[0].Ident)
-			buf.WriteString("}")
+			// Every bind parameter with a regex value is a bind of its own, whereas only
+			// the first one is for the match all style (the rest are options, e.g.
+			// "capture").
+			for i, p := range e.BindParameters.Parameters {
+				if i > 0 && p.Value.Regex == nil {
+					break
+				}
+				buf.WriteString("{")
+				buf.WriteString(p.Ident)
+				buf.WriteString("}")
+			}
 		}
 	}
 
